@@ -468,6 +468,15 @@ def alert_levels(chk):
         if len(ws) != 1:
             raise AnalysisBroken('%s: alert byte word not identified (%s)' % (key, sorted(ws)))
         W = next(iter(ws))
+        # the half-received alert (its level byte) must survive until the description byte arrives, possibly in another record or
+        # another delivery of the same record: nothing but the alert-byte word may write eng.alert
+        writers = set(e.word for e in I0.events if e.name == 'set8' and e.args[-1].isconst() and e.args[-1].c == o_al)
+        inst = '%s: eng.alert (level of a half-received alert) is written by the alert-byte word only' % key
+        if writers == {W}:
+            chk.ok(R, inst, P.src)
+        else:
+            chk.violation(R, inst, P.src, 'also written by W%s: an alert whose two bytes arrive separately loses its level byte - a fatal alert or close_notify '
+                          'is swallowed and the engine stays open with no error' % sorted(writers - {W}), key='%s %s writers' % (R, key))
         for b in (0, 1, 2, 3, 255):
             I = t0ai.Interp(P, field_ranges={o_al: (0, 0)})
             I.unroll_concrete = True
